@@ -93,14 +93,20 @@ def wlgen_line(l, length, sep, cap, budget, words=None, chunks=None, emit=None, 
                                                core.src_tokens(src))
 
 
-def draws_for_sep(rng, sep, boundary=None):
-    """raw words for one separator call (a valid candidate at the first attempt when possible)"""
+def draws_for_sep(rng, sep, boundary=None, fail_attempts=0):
+    """raw words for one separator call (a valid candidate at the first attempt when possible; with fail_attempts = T,
+    T candidates that miss a requirement, i.e. a call that exhausts its attempts and yields the empty separator)"""
     r = sep_recipe(sep)
     if r is None:
         return []
     A = r.alphabet()
     if r.length < 1 or not A:
         return []
+    if fail_attempts:
+        bads = [chargen.bad_candidate(rng, r) for _ in range(fail_attempts)]
+        if all(b is not None for b in bads):
+            ws, _ = chargen.tape_for(rng, len(A), bads, spread=True)
+            return ws
     g = chargen.good_candidate(rng, r)
     if g is None:
         return [rng.randrange(W) for _ in range(r.length)]
@@ -110,8 +116,8 @@ def draws_for_sep(rng, sep, boundary=None):
     return ws
 
 
-def make_tape(rng, size, length, sep, cap, kind):
-    """a raw-word tape for one generation; kind in random/first/last/exact"""
+def make_tape(rng, size, length, sep, cap, kind, budget=None):
+    """a raw-word tape for one generation; kind in random/first/last/exact/boundary/sepfail"""
     if size == 0 or length < 1:
         return [rng.randrange(W) for _ in range(4)]
     words = []
@@ -139,7 +145,10 @@ def make_tape(rng, size, length, sep, cap, kind):
         rej(size)
         words.append(idx_word(size, pick(size)))
         if i < L - 1:
-            words += draws_for_sep(rng, sep, boundary=("last" if kind == "last" else "reject" if kind == "boundary" else None))
+            if kind == "sepfail" and i == 0 and budget is not None:
+                words += draws_for_sep(rng, sep, fail_attempts=budget[0])     # the first gap's call exhausts its attempts
+            else:
+                words += draws_for_sep(rng, sep, boundary=("last" if kind == "last" else "reject" if kind == "boundary" else None))
     if sep[0] != "char":
         words += draws_for_sep(rng, sep)      # the Entropy() call
     if kind == "exact":
@@ -247,9 +256,18 @@ def gen_cases(ctx, n, with_empty_word=False):
             sep = rng.choice(SEPS[:8])
             cap = rng.choice(["all", "one", "random", "first"])
         budget = chargen.DEFAULT_BUDGET if rng.random() < 0.8 else rng.choice([(5, 1, 1000000000), (2, 1, 2), (12, 1, 2)])
+        srq = sep_recipe(sep)
+        if srq is not None and srq.live_families() and rng.random() < 0.5:
+            budget = rng.choice([(2, 1, 2), (3, 1, 1), (1, 1, 1)])     # separator calls that can exhaust their attempts
+            if length in (1, 2):
+                length = rng.choice([3, 4, 5])
         size = 0 if l in ("nil", "zero") else py_size(l)
-        for kind in (["last", "exact"] if length >= 64 else rng.sample(["random", "first", "last", "exact", "boundary"], 2)):
-            words = make_tape(rng, size, length, sep, cap, kind)
+        kinds = ["last", "exact"] if length >= 64 else rng.sample(["random", "first", "last", "exact", "boundary"], 2)
+        sr = sep_recipe(sep)
+        if sr is not None and sr.live_families() and budget[0] <= 12 and length >= 3:
+            kinds = ["sepfail"] + kinds[:1]
+        for kind in kinds:
+            words = make_tape(rng, size, length, sep, cap, kind, budget)
             cases.append({"list": l, "length": length, "sep": sep, "cap": cap, "budget": budget, "words": words,
                           "meta": {"list": l if isinstance(l, str) else l[:12], "length": length, "sep": sep_json(sep), "cap": cap, "budget": budget,
                                    "tape_kind": kind}})
